@@ -973,19 +973,49 @@ def fact_killed(f, writes):
         return False
     if writes == 'ALL':
         return True
-    for x in walk(f[1]):
-        if x[0] in ('field', 'idx', 'deref', 'cidx', 'subslice'):
-            if not contains(x, lambda y: y[0] == 'deref'):
-                continue  # projection of a value (no pointer involved): not memory
-            root, ch = field_chain(x)
-            if root[0] != 'param':
-                return True  # memory reached through something we cannot name
-            for (wr, wch) in writes:
-                if wr == ('param', root[2]):
-                    n = min(len(ch), len(wch))
-                    if tuple(ch[:n]) == tuple(wch[:n]):
-                        return True
+    for x in _access_paths(f[1]):
+        if not contains(x, lambda y: y[0] == 'deref'):
+            continue  # projection of a value (no pointer involved): not memory
+        root, ch = field_chain(x)
+        if root[0] != 'param':
+            return True  # memory reached through something we cannot name
+        for (wr, wch) in writes:
+            if wr == ('param', root[2]):
+                n = min(len(ch), len(wch))
+                if tuple(ch[:n]) == tuple(wch[:n]):
+                    return True
     return False
+
+
+def _access_paths(e, _top=True):
+    """the maximal access paths read by expression e (self.a.b is one path, not also self.a and *self), plus the
+    paths inside index expressions and call arguments"""
+    if not isinstance(e, tuple) or not e:
+        return
+    k = e[0]
+    if k in ('field', 'idx', 'deref', 'cidx', 'subslice', 'variant'):
+        yield e
+        # descend along the base without yielding its prefixes, but do visit index expressions and non-path bases
+        x = e
+        while isinstance(x, tuple) and x and x[0] in ('field', 'idx', 'deref', 'cidx', 'subslice', 'variant', 'ref', 'try', 'named'):
+            if x[0] == 'idx':
+                for y in _access_paths(x[2]):
+                    yield y
+            x = x[2] if x[0] == 'named' else x[1]
+        for y in _access_paths(x):
+            if y is not x or x[0] not in ('field', 'idx', 'deref', 'cidx', 'subslice', 'variant'):
+                yield y
+        return
+    for c in e:
+        if isinstance(c, tuple):
+            if c and isinstance(c[0], str) and c[0] in _KINDS:
+                for y in _access_paths(c):
+                    yield y
+            else:
+                for z in c:
+                    if isinstance(z, tuple):
+                        for y in _access_paths(z):
+                            yield y
 
 
 def fact_reads_memory(f):
